@@ -3,7 +3,8 @@
    input_key_id, account_id, min_confirms, max_utxos, locktime, replace_by_fee), WalletTransaction.send (broadcast:
    store + mark the inputs spent), Wallet.utxos_update / utxo_add (the provider's listing is an ARGUMENT: whatever a
    provider says, an output referenced by an input of a stored wallet transaction stays spent), re-opening the wallet,
-   WalletTransaction.bumpfee (transaction_delete of the replaced transaction + new broadcast).
+   WalletTransaction.bumpfee (transaction_delete of the replaced transaction + new broadcast), transaction_delete of ANY
+   earlier broadcast transaction (two stored transactions may spend the same output: it stays spent while one remains).
    Definitions only; nothing of Model/{CoinSelect,TxCreate,BumpFee}.v is changed.
 
    The persistent state is what the database holds: the output rows (Model/CoinSelect.v [utxo], insertion order),
@@ -265,7 +266,9 @@ Inductive hop :=
 | HUpdate (acct : Z) (listing : list litem) (rescan : bool)
 | HUtxoAdd (acct : Z) (it : litem)
 | HReopen
-| HBump (b : btx) (fee extra : Z) (bc verified : bool).
+| HBump (b : btx) (fee extra : Z) (bc verified : bool)
+| HDelete (serial : option Z).      (* Wallet.transaction_delete / WalletTransaction.delete of an earlier broadcast transaction
+                                       (None: the operation named did not store one) *)
 
 Inductive hout :=
 | OTx (x : htx) (pushed : bool)
@@ -273,7 +276,9 @@ Inductive hout :=
 | OCount (n : Z)
 | ODone
 | OBump (b : btx) (pushed : bool)
-| ONoLast.
+| ONoLast
+| ODeleted
+| ONoTx.
 
 Definition after_tx (st : hstate) (acct : Z) (r : result htx) (bc signable : bool) : hstate * hout :=
   match r with
@@ -313,6 +318,19 @@ Definition h_step (env : henv) (nw : network) (w : wkind) (st : hstate) (op : ho
                                    end), OBump b' false)
           end
       end
+  | HDelete None => (st, ONoTx)
+  | HDelete (Some s) =>
+      (* a stored wallet transaction has at least one input row *)
+      if existsb (fun p => fst p =? s) (hs_txins st)
+      then (with_last (h_delete st s)
+                      (match hs_last st with
+                       | Some l => match l_serial l with
+                                   | Some s' => if s' =? s then None else Some l
+                                   | None => Some l
+                                   end
+                       | None => None
+                       end), ODeleted)
+      else (st, ONoTx)                (* "Transaction ... not found in this wallet" *)
   end.
 
 Record hrec := { hr_pre : hstate; hr_op : hop; hr_out : hout; hr_post : hstate }.
